@@ -19,6 +19,7 @@ import Driver.FsWrite
 import Driver.Codec
 import Driver.Cli
 import Driver.Watch
+import Driver.Configure
 open Lean
 
 def dispatch (j : Json) : Except String Json := do
@@ -38,6 +39,7 @@ def dispatch (j : Json) : Except String Json := do
   | "codec" => Driver.Codec.handle j
   | "cli" => Driver.Cli.handle j
   | "watch" => Driver.Watch.handle j
+  | "reconf" => Driver.Configure.handle j
   | _ => throw s!"unknown stream {stream}"
 
 partial def loop (hin hout : IO.FS.Stream) : IO Unit := do
